@@ -38,7 +38,9 @@ PStack == [i \in 1..(Len(st) - 1) |-> IF st[i + 1] = "Array" THEN "a" ELSE "o"]
 P == INSTANCE JsonStream WITH stack <- PStack, afterKey <- (TopSt = "ObjectValue"), prevVal <- needComma, lastStart <- lastStartI,
                               out <- outI, valid <- FALSE, compact <- <<>>, ended <- FALSE
 
-Init == /\ toks \in UNION {[1..n -> Classes] : n \in 0..MaxTok}
+\* (nested quantifiers: TLC enumerates a function set lazily, but builds a UNION of them explicitly and refuses above 10^6 elements)
+Init == /\ \E n \in 0..MaxTok : IF n = 0 THEN toks = <<>>
+                                 ELSE \E c \in Classes : \E t \in [1..(n - 1) -> Classes] : toks = <<c>> \o t
         /\ idx = 1 /\ st = <<"Value">> /\ needComma = FALSE /\ gapAcc = <<>> /\ lastStartI = FALSE /\ outI = <<>> /\ halted = FALSE
         /\ out = [op |-> "none"]
 
